@@ -161,7 +161,7 @@ theorem lex_p_Var {v : Var} (h : varOK v = true) : lexVar v = true ∧ pVar v = 
 
 theorem lex_p_Func {tab : List TabEnt} {f : Func} (h : funcOK tab f = true) : lexFunc f = true ∧ pFunc f = true := by
   simp only [funcOK, Bool.and_eq_true, List.all_eq_true] at h
-  obtain ⟨⟨⟨⟨⟨⟨⟨⟨⟨⟨⟨hn, _⟩, hargs⟩, _⟩, hloc⟩, hglob⟩, _⟩, _⟩, _⟩, hbody⟩, _⟩, htrail⟩ := h
+  obtain ⟨⟨⟨⟨⟨⟨⟨⟨⟨⟨hn, _⟩, hargs⟩, _⟩, hloc⟩, hglob⟩, _⟩, _⟩, _⟩, hbody⟩, _⟩ := h
   constructor
   · simp only [lexFunc, Bool.and_eq_true, List.all_eq_true]
     refine ⟨⟨⟨⟨hn, fun v hv => (lex_p_Var (hargs v hv)).1⟩, fun v hv => ?_⟩, fun v hv => ?_⟩,
@@ -169,8 +169,8 @@ theorem lex_p_Func {tab : List TabEnt} {f : Func} (h : funcOK tab f = true) : le
     · exact (hloc v hv).2
     · have := hglob v hv; simp [this.1.2, this.2]
   · simp only [pFunc, Bool.and_eq_true, List.all_eq_true]
-    refine ⟨⟨⟨⟨fun v hv => (lex_p_Var (hargs v hv)).2, fun v hv => ?_⟩, fun v hv => ?_⟩,
-      fun i hi => (lex_p_FItem (hbody i hi)).2⟩, htrail⟩
+    refine ⟨⟨⟨fun v hv => (lex_p_Var (hargs v hv)).2, fun v hv => ?_⟩, fun v hv => ?_⟩,
+      fun i hi => (lex_p_FItem (hbody i hi)).2⟩
     · exact (hloc v hv).1
     · exact (hglob v hv).1.1
 
@@ -191,10 +191,10 @@ theorem lex_p_Item {w : WSt} {prev : List Item} {it : Item} (h : itemOK w prev i
     | lref name l1 l2 disp => exact ⟨hname, rfl⟩
     | ref name r disp =>
       simp only [Bool.and_eq_true] at h
-      exact ⟨by simp only [lexItem, Bool.and_eq_true]; exact ⟨hname, h.1.1⟩, rfl⟩
+      exact ⟨by simp only [lexItem, Bool.and_eq_true]; exact ⟨hname, h.1⟩, rfl⟩
     | expr name fn =>
       simp only [Bool.and_eq_true] at h
-      exact ⟨by simp only [lexItem, Bool.and_eq_true]; exact ⟨hname, h.1.1.1⟩, rfl⟩
+      exact ⟨by simp only [lexItem, Bool.and_eq_true]; exact ⟨hname, h.1.1⟩, rfl⟩
     | proto name res args va =>
       simp only [Bool.and_eq_true, List.all_eq_true] at h
       refine ⟨?_, ?_⟩
@@ -206,17 +206,14 @@ theorem lex_p_Item {w : WSt} {prev : List Item} {it : Item} (h : itemOK w prev i
       have := lex_p_Func (tab := tab') (f := f) (by simpa using h)
       exact ⟨this.1, this.2⟩
     | data name ty els =>
-      simp only [dataOK, Bool.and_eq_true, Bool.not_eq_true', Bool.or_eq_true, decide_eq_true_eq] at h
-      obtain ⟨⟨hb, hp⟩, hfl⟩ := h
+      simp only [dataOK, Bool.and_eq_true, Bool.not_eq_true'] at h
+      obtain ⟨hb, hfl⟩ := h
       refine ⟨?_, by simp [pItem, hb]⟩
       simp only [lexItem, Bool.and_eq_true, List.all_eq_true]
       refine ⟨hname, ?_⟩
       intro v hv
-      rcases hp with hp | hp
-      · cases ty <;> simp [Ty.isBlk] at hb <;> simp at hp <;> simp only [lexDataEl] <;>
-          (try exact List.all_eq_true.mp hfl v hv)
-      · have : els = [] := by simpa [List.isEmpty_iff] using hp
-        subst this; simp at hv
+      cases ty <;> simp [Ty.isBlk] at hb <;> simp only [lexDataEl] <;>
+        (try exact List.all_eq_true.mp hfl v hv)
 
 theorem lex_p_items (items : List Item) : ∀ (w : WSt) (prev : List Item), itemsOK w prev items = true →
     items.all lexItem = true ∧ items.all pItem = true := by
